@@ -197,9 +197,9 @@ theorem schedule_res (maxArr : Nat) (sc : Script) (fuel : Nat) (s : EState) (h :
         Live (flushCompletions { s0 with arrivals := s0.arrivals ++ [kind] }) := by
       intro s0 kind h0
       exact Live.congr ((dv_flushCompletions _).trans (dv_ext rfl rfl rfl rfl rfl rfl)) h0
-    have acts : ∀ (s0 : EState) (k : Nat), Live s0 →
-        Res (advance 4000 (if k >= maxArr then applyAction s0 .halt else (scriptAt sc k).foldl applyAction s0)) := by
-      intro s0 k h0
+    have acts : ∀ (s0 : EState) (c : Prop) [Decidable c] (as : List Action), Live s0 →
+        Res (advance 4000 (if c then applyAction s0 .halt else as.foldl applyAction s0)) := by
+      intro s0 c _ as h0
       apply advance_res
       split
       · exact (applyAction_live _ _ h0).res
@@ -216,19 +216,19 @@ theorem schedule_res (maxArr : Nat) (sc : Script) (fuel : Nat) (s : EState) (h :
       · rename_i hpc
         have hl : Live s := ⟨h.1, by rw [hpc]; intro e; cases e⟩
         simp only []
-        exact ih _ (acts _ _ (arrive s _ hl))
+        exact ih _ (acts _ _ _ (arrive s _ hl))
       · rename_i hpc
         have hl : Live s := ⟨h.1, by rw [hpc]; intro e; cases e⟩
         simp only []
-        exact ih _ (acts _ _ (arrive s _ hl))
+        exact ih _ (acts _ _ _ (arrive s _ hl))
       · rename_i hpc
         have hl : Live s := ⟨h.1, by rw [hpc]; intro e; cases e⟩
         simp only []
-        exact ih _ (acts _ _ (arrive s _ hl))
+        exact ih _ (acts _ _ _ (arrive s _ hl))
       · rename_i hpc
         have hl : Live s := ⟨h.1, by rw [hpc]; intro e; cases e⟩
         simp only []
-        exact ih _ (acts _ _ (arrive s _ hl))
+        exact ih _ (acts _ _ _ (arrive s _ hl))
       all_goals
         rename_i hpc
         have hne : s.pc ≠ .finished := by rw [hpc]; intro e; cases e
